@@ -10,10 +10,11 @@ TEMPLATES = {
     "org": ("@org $1234\nx1: @dw x1\n", "3412"),
     "here": ("@org $10\n@db 1\n@dw @here\n", "011100"),
     "macro": ("@macro mk, 1, pp\n@db pp, pp + 1\n@endmacro\nmk 5\n", "0506"),
-    "defl": ("@defl q1, 5\n@db q1\n", "05"),
-    "defn": ("@defn q1, 6\n@db q1\n", "06"),
-    "redefl": ("@defl q1, 5\n@redefl q1, 7\n@db q1\n", "07"),
-    "redefn": ("@defn q1, 5\n@redefn q1, 8\n@db q1\n", "08"),
+    # (@defl / @redefl take the metadata of the open block, @defn / @redefn take none: what tells the pairs apart)
+    "defl": ("@meta \"k\" \"v\"\n@defl q1, 5\n@endmeta\n@db q1, @string { \"<\" @getmeta q1, \"k\" \">\" }\n", "053c763e"),
+    "defn": ("@meta \"k\" \"v\"\n@defn q1, 6\n@endmeta\n@db q1, @string { \"<\" @getmeta q1, \"k\" \">\" }\n", "063c3e"),
+    "redefl": ("@defn q1, 5\n@meta \"k\" \"v\"\n@redefl q1, 7\n@endmeta\n@db q1, @string { \"<\" @getmeta q1, \"k\" \">\" }\n", "073c763e"),
+    "redefn": ("@meta \"k\" \"v\"\n@defl q1, 5\n@redefn q1, 8\n@endmeta\n@db q1, @string { \"<\" @getmeta q1, \"k\" \">\" }\n", "083c3e"),
     "isdef": ("@defn q1, 5\n@db @isdef q1, @isdef q2\n", "0100"),
     "undef": ("@defn q1, 5\n@undef q1\n@defn q1, 9\n@db q1\n", "09"),
     "echo": ("@echo \"hello\"\n@db 1\n", "01"),
